@@ -25,7 +25,7 @@ def main():
             script = runsh.replace(mdir, "@@MDIR@@")
             script = re.sub(r"/tmp/mut-C\d+-out/\d+", "@@MDIR@@", script)
             script = re.sub(r"/tmp/mut-C\d+(?![\d-])", wt, script).replace("@@MDIR@@", mdir)
-            tmp = os.path.join(wt, ".seed_run.sh")
+            tmp = os.path.join(mdir, ".seed_run.sh")  # next to the demo: scripts may use $(dirname "$0")
             open(tmp, "w").write(script)
             rc, out = sh(["bash", tmp], cwd=wt, timeout=1800)
             os.remove(tmp)
